@@ -30,7 +30,7 @@ Spec == MCInit /\ [][MCNext]_<<vars, steps>>
 
 \* ---------------------------------------------------------------- lemmas
 TypeOK == (\A r \in Leaves(L) : bits[r] \subseteq AllBits(W(L, r))) /\ LeafSet(L) = Leaves(L) /\ Computed(L) = {r \in Leaves(L) : Reg(L, r).comp # ""}
-LayoutOK == GroupsConsistent(L) /\ NoOverlap(L) /\ Resolvable(L) /\ EnumNamesUnique(L)
+LayoutOK == GroupsConsistent(L) /\ NoOverlap(L) /\ Resolvable(L) /\ EnumNamesUnique(L) /\ FieldNamesUnique(L) /\ FieldsCover(L)
 \* "computed fields hold in every exported binary"
 ExportedComputedHold == bin.ok => ComputedHold(L, bin.b)
 \* the size bit-field of every object holds the size of its binary
